@@ -19,7 +19,7 @@ DOC = SCHEMA(types=[TYPE("s", [MK("k")])], children=[MK("k"), K("j"), MSEC("s", 
 
 STEPS = [
     "%define a v1", "%define A v1", "%define a v2", "%define a", "%define b $a", "%define B $$a",
-    "%define b ${a}x", "%define c p  q", "%define 1a v1", "%define a-b v1", "%define b $c",
+    "%define b ${a}x", "%define c p  q", "%define 1a v1", "%define a-b v1", "%define b $c", "%define A \t v1",
     "k $a", "k $B", "k ${c}", "k ${A}", "k $$a", "k $a$b",
     "%include f1.conf", "%include sub/f2.conf",
 ]
@@ -56,7 +56,11 @@ def _same(want, got):
 
 
 def compare(ws, sch, rec, item, emit):
+    import os
     import ZConfig
+    # environment variables spelled like the names the texts refer to: '$name' is never looked up there
+    for n in ("a", "A", "b", "B", "c", "C"):
+        os.environ.setdefault(n, "from-the-environment")
     want = emit["o"]
     runs = []
     got1, _ = scenario.run_real(ws, sch, rec, item)
